@@ -463,9 +463,12 @@ def _wavelet_array(f, inline, func):
 
 def _wavelet_center_compute(oshape, border=0, dtype=None, cval=0.0):
     if border >= 2**40:
-        # larger borders overflow the int64 shape computation below (which then never terminates)
+        # larger borders overflow the int64 shape computation below
         raise ValueError('mahotas.wavelet_center: border out of range')
-    for c in range(1, 16+border):
+    if len(oshape) == 0 or np.min(oshape) <= 0:
+        raise ValueError('mahotas.wavelet_center: every dimension of the image must be positive')
+    # the candidate shape doubles with every step: 64 steps exceed any admissible border
+    for c in range(1, 64):
         nshape = 2**(np.floor(np.log2(oshape))+c)
         nshape = nshape.astype(int, copy=False)
         delta = nshape - oshape
